@@ -178,7 +178,8 @@ type world struct {
 	surv    []op // surviving (non-reverted) content operations and transaction boundaries since the empty state
 	since   int  // journalled steps since the last transaction boundary
 	viaSnap bool
-	flatAt  int // hist.flattens when this StateDB (or the one it was copied from) was opened
+	flatAt  int  // hist.flattens when this StateDB (or the one it was copied from) was opened
+	dirty   bool // operated on since its last full comparison with the model
 }
 
 type failure struct {
@@ -530,6 +531,7 @@ func (h *hist) endTx(w *world, o op) {
 
 func (h *hist) apply(o op) (fl *failure) {
 	w := h.worlds[o.W%len(h.worlds)]
+	w.dirty = true
 	m, s, g := w.m, w.real, w.geth
 	ad, gad := kaddr(o.A), gaddr(o.A)
 	skip := func() *failure { h.st.count("skipped_inapplicable", 1); return nil }
@@ -890,7 +892,7 @@ func (h *hist) commit(w *world, o op) *failure {
 // copyFork: Copy() at a transaction boundary; both StateDBs continue.
 func (h *hist) copyFork(w *world, o op) *failure {
 	cp := w.real.Copy()
-	nw := &world{real: cp, db: w.db, m: w.m.copy(), surv: append([]op(nil), w.surv...), viaSnap: w.viaSnap, flatAt: w.flatAt}
+	nw := &world{real: cp, db: w.db, m: w.m.copy(), surv: append([]op(nil), w.surv...), viaSnap: w.viaSnap, flatAt: w.flatAt, dirty: true}
 	nw.m.thash, nw.m.txIndex = 0, 0 // a copy starts with a fresh transaction context (not part of the state)
 	if w.geth != nil {
 		nw.geth = w.geth.Copy()
@@ -973,16 +975,23 @@ func exec(ops []op, fl flavour, st *stats) (f *failure) {
 		switch o.Obs {
 		case obsFull:
 			for _, x := range h.worlds {
+				// a StateDB that was not operated on since it last agreed with its model can only
+				// have been changed through another one
 				prefix := "model:"
-				if x != w {
+				if x != w && !x.dirty {
 					prefix = "copy:other-statedb-changed:"
 				}
 				if f := h.check(x, -1, prefix); f != nil {
 					if prefix == "model:" {
-						f.Key = strings.Replace(f.Key, "model:", "model:after-"+o.K.String()+":", 1)
+						if x == w {
+							f.Key = strings.Replace(f.Key, "model:", "model:after-"+o.K.String()+":", 1)
+						} else {
+							f.Key = strings.Replace(f.Key, "model:", "model:seen-later:", 1)
+						}
 					}
 					return f
 				}
+				x.dirty = false
 			}
 		case obsAddr:
 			if f := h.check(w, o.A, "model:after-"+o.K.String()+":"); f != nil {
